@@ -1,19 +1,23 @@
-"""Reaching-definition substitution over straight-line/loop code (helper of E4/E8).
+"""Reaching-definition substitution over structured code (helper of E4/E8).
 
 Walks a function body in program order with a flow-sensitive environment for scalar
 temporaries (``i1 = i - 1``; ``m = n - 1``; ``w_tmp = w[i]``) and records every store
-into an array element together with the normal form of its index and right-hand side.
-Nothing is executed: the result is a table of (array, index normal form, rhs normal
-form, region) that rules compare with reference formulas.
+into an array element together with the normal form of its index and right-hand side,
+the enclosing loops and the branch conditions it sits under.  A value stored into a
+cell is substituted into later reads of the same cell *within the same block*
+(``y[ix] = f(...)`` followed by ``y[ix] = g(y[ix])`` composes to ``g(f(...))``).
+Nothing is executed: the result is a table of normal forms that rules compare with
+reference formulas.
 """
 from __future__ import annotations
 
 import ast
+import copy
 from dataclasses import dataclass, field
 from typing import Dict, List, Optional, Tuple
 
 from .core import AnalysisError, norm_stmt
-from .poly import Normaliser, Rat, Unsupported
+from .poly import Normaliser, Rat, Unsupported, cmp_key
 
 ALLOC_FUNCS = {"zeros", "ones", "empty", "full", "zeros_like", "full_like", "ones_like", "copy",
                "arange", "array"}
@@ -24,14 +28,25 @@ class Region:
     kind: str  # "line" | "loop"
     ordinal: int
     var: Optional[str] = None
-    rng: Optional[List[Rat]] = None  # normalised range args
+    rng: Optional[List[Rat]] = None  # normalised range args (None for iteration over an array)
     node: Optional[ast.AST] = None
     parent: Optional["Region"] = None
+    iter_key: Optional[str] = None
 
     def label(self) -> str:
         if self.kind == "line":
             return "straight-line"
+        if self.rng is None:
+            return f"loop({self.var} in {self.iter_key})"
         return f"loop({self.var} in range({', '.join(r.key() for r in self.rng)}))"
+
+    def chain(self) -> List["Region"]:
+        out, r = [], self
+        while r is not None:
+            if r.kind == "loop":
+                out.append(r)
+            r = r.parent
+        return list(reversed(out))
 
 
 @dataclass
@@ -42,36 +57,117 @@ class Store:
     stmt: ast.AST
     region: Region
     seq: int  # program order
+    guards: Tuple[str, ...] = ()
+    idx_key: str = ""
+    aug: bool = False
 
     @property
     def line(self):
         return self.stmt.lineno
 
 
-class StoreCollector:
-    """Collect element stores of a function.
+@dataclass
+class ScalarDef:
+    name: str
+    rhs: Rat
+    stmt: ast.AST
+    region: Region
+    guards: Tuple[str, ...]
+    seq: int
+    aug: bool = False
 
-    size_names: names whose defining assignment is a size read (``y.shape[0]``, ``len(x)``)
-                and that stay atoms.
-    """
+
+@dataclass
+class CallEvent:
+    func: str
+    node: ast.Call
+    stmt: ast.AST
+    region: Region
+    guards: Tuple[str, ...]
+    seq: int
+    args: List[str] = field(default_factory=list)
+
+
+@dataclass
+class ExitEvent:
+    kind: str  # return | break | continue
+    stmt: ast.AST
+    region: Region
+    guards: Tuple[str, ...]
+    seq: int
+    value: Optional[Rat] = None
+
+
+NEG = {"eq0": "ne0", "ne0": "eq0", "lt0": "ge0", "ge0": "lt0", "le0": "gt0", "gt0": "le0"}
+
+
+def negate_key(k: str) -> str:
+    if "[" in k:
+        tag, rest = k.split("[", 1)
+        if tag in NEG:
+            return NEG[tag] + "[" + rest
+    if k.startswith("not[") and k.endswith("]"):
+        return k[4:-1]
+    return f"not[{k}]"
+
+
+class StoreCollector:
+    """Collect element stores, scalar definitions, calls and exits of a function."""
 
     def __init__(self, fn: ast.FunctionDef, file: str, loop_atom: str = "ROW",
-                 keep_atoms: Tuple[str, ...] = ()):
+                 keep_atoms: Tuple[str, ...] = (), strict: bool = True, loop_atoms_by_name: bool = False,
+                 track_cells: bool = True):
         self.fn = fn
         self.file = file
         self.loop_atom = loop_atom
         self.keep = set(keep_atoms)
+        self.strict = strict
+        self.by_name = loop_atoms_by_name
+        self.track_cells = track_cells
         self.env: Dict[str, Rat] = {}
+        self.cells: Dict[str, Rat] = {}
         self.stores: List[Store] = []
         self.allocs: Dict[str, ast.AST] = {}
-        self.scalars: Dict[str, List[Tuple[Rat, ast.AST, Region]]] = {}
+        self.alloc_stmts: Dict[str, ast.AST] = {}
+        self.scalars: Dict[str, List[ScalarDef]] = {}
+        self.calls: List[CallEvent] = []
+        self.exits: List[ExitEvent] = []
         self.returns: List[ast.Return] = []
         self.regions: List[Region] = []
+        self.arrays_assigned: Dict[str, List[Tuple[Rat, ast.AST, Tuple[str, ...], int]]] = {}
         self._seq = 0
         self._ord = 0
+        self._guards: List[str] = []
+        # names that are mutated in place (element stores, out= arguments) are array variables: never copy-propagated
+        self.mutated = set()
+        for n in ast.walk(fn):
+            if isinstance(n, (ast.Assign, ast.AugAssign)):
+                for t in (n.targets if isinstance(n, ast.Assign) else [n.target]):
+                    for tt in (t.elts if isinstance(t, ast.Tuple) else [t]):
+                        if isinstance(tt, ast.Subscript) and isinstance(tt.value, ast.Name):
+                            self.mutated.add(tt.value.id)
+            elif isinstance(n, ast.Call) and ast.unparse(n.func).split(".")[-1] == "round" and len(n.args) == 3 \
+                    and isinstance(n.args[2], ast.Name):
+                self.mutated.add(n.args[2].id)
 
+    # ------------------------------------------------------------------ normaliser with cell substitution
     def N(self) -> Normaliser:
-        return Normaliser(self.env)
+        def on_sub(node, nrm):
+            if isinstance(node.value, ast.Name) and not isinstance(node.slice, ast.Slice):
+                try:
+                    key = self._cell_key(node, nrm)
+                except Unsupported:
+                    return None
+                if key in self.cells:
+                    return self.cells[key]
+            return None
+        return Normaliser(self.env, on_sub=on_sub if self.track_cells else None)
+
+    def _cell_key(self, node: ast.Subscript, nrm: Normaliser) -> str:
+        base = nrm._base_key(node.value)
+        sl = node.slice
+        parts = sl.elts if isinstance(sl, ast.Tuple) else [sl]
+        return f"{base}[{','.join(nrm.idx_key(p) for p in parts)}]"
 
     def fail(self, node, why):
         raise AnalysisError(
@@ -89,91 +185,294 @@ class StoreCollector:
         self._ord += 1
         return self._ord
 
-    def _is_size_read(self, v: ast.AST) -> bool:
-        s = ast.unparse(v)
-        return ".shape" in s or s.startswith("len(") or s.endswith(".size")
+    def _next_seq(self):
+        self._seq += 1
+        return self._seq
 
     def _is_alloc(self, v: ast.AST) -> bool:
         return isinstance(v, ast.Call) and ast.unparse(v.func).split(".")[-1] in ALLOC_FUNCS
 
+    def _test_keys(self, test: ast.expr, arm: bool) -> List[str]:
+        N = self.N()
+
+        def key(t):
+            try:
+                if isinstance(t, ast.Compare) and len(t.ops) == 1:
+                    return cmp_key(t.ops[0], N.norm(t.left), N.norm(t.comparators[0]))
+                return N.norm(t).key()
+            except Unsupported:
+                return ast.unparse(t)
+
+        def interp(t, a) -> List[str]:
+            if isinstance(t, ast.BoolOp):
+                if (isinstance(t.op, ast.And) and a) or (isinstance(t.op, ast.Or) and not a):
+                    out = []
+                    for v in t.values:
+                        out += interp(v, a)
+                    return out
+                parts = sorted(key(v) for v in t.values)
+                k = ("and" if isinstance(t.op, ast.And) else "or") + "[" + ";".join(parts) + "]"
+                return [k if a else negate_key(k)]
+            if isinstance(t, ast.UnaryOp) and isinstance(t.op, ast.Not):
+                return interp(t.operand, not a)
+            k = key(t)
+            return [k if a else negate_key(k)]
+        return interp(test, arm)
+
+    def _terminates(self, stmts) -> bool:
+        return bool(stmts) and isinstance(stmts[-1], (ast.Return, ast.Continue, ast.Break, ast.Raise))
+
     def _block(self, stmts, region: Region):
         cur = region
+        pushed = 0
         for st in stmts:
             if isinstance(st, ast.Expr):
                 if isinstance(st.value, ast.Constant):
                     continue  # docstring
+                if isinstance(st.value, ast.Call):
+                    self._call(st.value, st, cur)
+                    continue
                 self.fail(st, "expression statement")
             elif isinstance(st, ast.Assign):
-                if len(st.targets) != 1:
-                    self.fail(st, "multiple targets")
-                self._assign(st.targets[0], st.value, st, cur)
+                for tgt in st.targets:
+                    self._assign(tgt, st.value, st, cur)
             elif isinstance(st, ast.AugAssign):
                 binop = ast.BinOp(left=_load(st.target), op=st.op, right=st.value)
                 ast.copy_location(binop, st)
-                self._assign(st.target, binop, st, cur)
+                ast.fix_missing_locations(binop)
+                self._assign(st.target, binop, st, cur, aug=True)
             elif isinstance(st, ast.For):
-                if st.orelse:
-                    self.fail(st, "for-else")
-                if not (isinstance(st.iter, ast.Call) and ast.unparse(st.iter.func) == "range"
-                        and isinstance(st.target, ast.Name)):
-                    self.fail(st, "loop that is not `for v in range(...)`")
-                try:
-                    rng = [self.N().norm(a) for a in st.iter.args]
-                except Unsupported as exc:
-                    self.fail(st, str(exc))
-                loop = Region("loop", self._next_ord(), st.target.id, rng, st, parent=cur if cur.kind == "loop" else None)
-                self.regions.append(loop)
-                saved = dict(self.env)
-                self.env[st.target.id] = Rat.atom(self.loop_atom if loop.parent is None else f"{self.loop_atom}{loop.ordinal}")
-                self._block(st.body, loop)
-                # scalars assigned in the loop are not valid after it
-                assigned = {n.id for s in ast.walk(st) for n in ([s] if isinstance(s, ast.Name) and isinstance(s.ctx, ast.Store) else [])}
-                self.env = {k: v for k, v in saved.items() if k not in assigned}
-                if cur.kind == "line":
-                    cur = Region("line", self._next_ord())
-                    self.regions.append(cur)
+                cur = self._for(st, cur)
+            elif isinstance(st, ast.If):
+                self._if(st, cur)
+                # an arm that leaves the block makes the complement hold for the rest of the block
+                if self._terminates(st.body) and not st.orelse:
+                    ks = self._test_keys(st.test, False)
+                    self._guards.extend(ks)
+                    pushed += len(ks)
+                elif st.orelse and self._terminates(st.orelse) and not self._terminates(st.body):
+                    ks = self._test_keys(st.test, True)
+                    self._guards.extend(ks)
+                    pushed += len(ks)
             elif isinstance(st, ast.Return):
                 self.returns.append(st)
-            elif isinstance(st, ast.Pass):
+                val = None
+                if st.value is not None:
+                    try:
+                        val = self.N().norm(st.value)
+                    except Unsupported:
+                        val = None
+                self.exits.append(ExitEvent("return", st, cur, tuple(self._guards), self._next_seq(), val))
+            elif isinstance(st, (ast.Break, ast.Continue)):
+                self.exits.append(ExitEvent("break" if isinstance(st, ast.Break) else "continue", st, cur,
+                                            tuple(self._guards), self._next_seq()))
+            elif isinstance(st, (ast.Pass, ast.Assert)):
                 continue
             else:
-                self.fail(st, f"statement kind {type(st).__name__}")
+                if self.strict:
+                    self.fail(st, f"statement kind {type(st).__name__}")
+        for _ in range(pushed):
+            self._guards.pop()
 
-    def _assign(self, target, value, st, region):
+    def _if(self, st: ast.If, region: Region):
+        for arm, body in ((True, st.body), (False, st.orelse)):
+            if not body:
+                continue
+            ks = self._test_keys(st.test, arm)
+            self._guards.extend(ks)
+            saved_env = dict(self.env)
+            saved_cells = dict(self.cells)
+            self._block(body, region)
+            assigned = _assigned_names(body)
+            self.env = {k: v for k, v in saved_env.items() if k not in assigned}
+            self.cells = saved_cells
+            for _ in ks:
+                self._guards.pop()
+        # cells written in an arm are unknown afterwards
+        written = set()
+        for s in ast.walk(st):
+            if isinstance(s, (ast.Assign, ast.AugAssign)):
+                for t in (s.targets if isinstance(s, ast.Assign) else [s.target]):
+                    if isinstance(t, ast.Subscript) and isinstance(t.value, ast.Name):
+                        written.add(t.value.id)
+        self.cells = {k: v for k, v in self.cells.items() if k.split("[")[0] not in written}
+
+    def _for(self, st: ast.For, cur: Region) -> Region:
+        if st.orelse:
+            self.fail(st, "for-else")
+        if not isinstance(st.target, ast.Name):
+            self.fail(st, "loop target is not a name")
+        rng = None
+        iter_key = None
+        is_range = isinstance(st.iter, ast.Call) and ast.unparse(st.iter.func) in ("range", "numba.prange", "prange")
+        try:
+            if is_range:
+                rng = [self.N().norm(a) for a in st.iter.args]
+            else:
+                iter_key = self.N().norm(st.iter).key()
+        except Unsupported as exc:
+            self.fail(st, str(exc))
+        loop = Region("loop", self._next_ord(), st.target.id, rng, st, parent=cur if cur.kind == "loop" else cur.parent,
+                      iter_key=iter_key)
+        self.regions.append(loop)
+        saved = dict(self.env)
+        saved_cells = dict(self.cells)
+        assigned = _assigned_names(st.body) | {st.target.id}
+        # values assigned in the body are loop-carried: unknown at loop entry
+        self.env = {k: v for k, v in self.env.items() if k not in assigned}
+        written = {t.value.id for s in ast.walk(st) if isinstance(s, (ast.Assign, ast.AugAssign))
+                   for t in (s.targets if isinstance(s, ast.Assign) else [s.target])
+                   if isinstance(t, ast.Subscript) and isinstance(t.value, ast.Name)}
+        self.cells = {k: v for k, v in self.cells.items() if k.split("[")[0] not in written}
+        if self.by_name:
+            atom = st.target.id
+        else:
+            atom = self.loop_atom if not loop.chain()[:-1] else f"{self.loop_atom}{len(loop.chain())}"
+        if is_range:
+            self.env[st.target.id] = Rat.atom(atom)
+        else:
+            self.env[st.target.id] = Rat.atom(f"elem[{iter_key}]")
+        self._block(st.body, loop)
+        self.env = {k: v for k, v in saved.items() if k not in assigned}
+        self.cells = {k: v for k, v in saved_cells.items() if k.split("[")[0] not in written}
+        nxt = Region("line", self._next_ord(), parent=cur.parent if cur.kind == "line" else cur)
+        if cur.kind == "line":
+            self.regions.append(nxt)
+            return nxt
+        return cur
+
+    def _call(self, call: ast.Call, st, region):
+        f = ast.unparse(call.func).split(".")[-1]
+        args = []
+        for a in call.args:
+            try:
+                args.append(self.N().norm(a).key())
+            except Unsupported:
+                args.append(ast.unparse(a))
+        self.calls.append(CallEvent(f, call, st, region, tuple(self._guards), self._next_seq(), args))
+        # np.round(a, 0, out) writes `out`
+        if f == "round" and len(call.args) == 3 and isinstance(call.args[2], ast.Name):
+            nm = call.args[2].id
+            self.cells = {k: v for k, v in self.cells.items() if k.split("[")[0] != nm}
+        if f == "append" and isinstance(call.func, ast.Attribute) and isinstance(call.func.value, ast.Name):
+            self.env.pop(call.func.value.id, None)
+
+    def _assign(self, target, value, st, region, aug=False):
         if isinstance(target, ast.Name):
             name = target.id
             if name in self.keep:
                 self.env.pop(name, None)
                 return
-            if self._is_alloc(value):
+            if (self._is_alloc(value) or name in self.mutated) and not aug:
                 self.allocs[name] = value
+                self.alloc_stmts[name] = st
                 self.env.pop(name, None)
+                self.cells = {k: v for k, v in self.cells.items() if k.split("[")[0] != name}
+                try:
+                    r = self.N().norm(value)
+                    self.arrays_assigned.setdefault(name, []).append((r, st, tuple(self._guards), self._next_seq()))
+                except Unsupported:
+                    pass
                 return
             try:
                 r = self.N().norm(value)
             except Unsupported as exc:
-                self.fail(st, str(exc))
+                if self.strict:
+                    self.fail(st, str(exc))
+                self.env.pop(name, None)
+                return
             self.env[name] = r
-            self.scalars.setdefault(name, []).append((r, st, region))
+            self.cells = {k: v for k, v in self.cells.items() if k.split("[")[0] != name}
+            self.scalars.setdefault(name, []).append(ScalarDef(name, r, st, region, tuple(self._guards), self._next_seq(), aug))
         elif isinstance(target, ast.Tuple) and isinstance(value, ast.Attribute) and value.attr == "shape":
             base = self.N()._base_key(value.value)
             for k, t in enumerate(target.elts):
                 if isinstance(t, ast.Name):
                     self.env[t.id] = Rat.atom(f"len{k}[{base}]")
-        elif isinstance(target, ast.Subscript) and isinstance(target.value, ast.Name):
+        elif isinstance(target, ast.Tuple) and isinstance(value, ast.Tuple) and len(target.elts) == len(value.elts):
+            vals = []
+            for v in value.elts:
+                try:
+                    vals.append(self.N().norm(v))
+                except Unsupported as exc:
+                    self.fail(st, str(exc))
+            for t, r in zip(target.elts, vals):
+                if isinstance(t, ast.Name):
+                    self.env[t.id] = r
+                    self.scalars.setdefault(t.id, []).append(ScalarDef(t.id, r, st, region, tuple(self._guards), self._next_seq()))
+                elif isinstance(t, ast.Subscript) and isinstance(t.value, ast.Name):
+                    idx = self.N().norm(t.slice) if not isinstance(t.slice, (ast.Slice, ast.Tuple)) else Rat.atom(self.N().idx_key(t.slice))
+                    self.stores.append(Store(t.value.id, idx, r, st, region, self._next_seq(), tuple(self._guards),
+                                             self._idxkey(t)))
+        elif isinstance(target, ast.Tuple) and isinstance(value, ast.Call):
+            # tuple unpacking of a call result: name_k = item_k[call]
             try:
-                idx = self.N().norm(target.slice)
-                rhs = self.N().norm(value)
+                r = self.N().norm(value)
             except Unsupported as exc:
                 self.fail(st, str(exc))
-            self._seq += 1
-            self.stores.append(Store(target.value.id, idx, rhs, st, region, self._seq))
+            for k, t in enumerate(target.elts):
+                item = Rat.atom(f"item{k}[{r.key()}]")
+                if isinstance(t, ast.Name):
+                    self.env[t.id] = item
+                    self.scalars.setdefault(t.id, []).append(ScalarDef(t.id, item, st, region, tuple(self._guards), self._next_seq()))
+                elif isinstance(t, ast.Subscript) and isinstance(t.value, ast.Name):
+                    idx = self.N().norm(t.slice) if not isinstance(t.slice, (ast.Slice, ast.Tuple)) else Rat.atom(self.N().idx_key(t.slice))
+                    self.stores.append(Store(t.value.id, idx, item, st, region, self._next_seq(), tuple(self._guards),
+                                             self._idxkey(t)))
+        elif isinstance(target, ast.Subscript) and isinstance(target.value, ast.Name):
+            try:
+                N = self.N()
+                sl = target.slice
+                if isinstance(sl, (ast.Slice, ast.Tuple)):
+                    idx = Rat.atom(N.idx_key(sl) if isinstance(sl, ast.Slice) else ",".join(N.idx_key(p) for p in sl.elts))
+                else:
+                    idx = N.norm(sl)
+                rhs = N.norm(value)
+            except Unsupported as exc:
+                if self.strict:
+                    self.fail(st, str(exc))
+                return
+            key = self._idxkey(target)
+            self.stores.append(Store(target.value.id, idx, rhs, st, region, self._next_seq(), tuple(self._guards), key, aug))
+            base = self.N()._base_key(target.value)
+            if not isinstance(target.slice, ast.Slice) and not (isinstance(target.slice, ast.Tuple) and any(
+                    isinstance(p, ast.Slice) for p in target.slice.elts)):
+                # other cells of the same array may alias only if their keys are equal: keep distinct keys,
+                # drop cells whose index is not a syntactically different constant
+                self.cells = {k: v for k, v in self.cells.items() if k.split("[")[0] != base or self._distinct(k, f"{base}[{key}]")}
+                self.cells[f"{base}[{key}]"] = rhs
+            else:
+                self.cells = {k: v for k, v in self.cells.items() if k.split("[")[0] != base}
         else:
-            self.fail(st, "assignment target")
+            if self.strict:
+                self.fail(st, "assignment target")
+
+    def _idxkey(self, target: ast.Subscript) -> str:
+        N = self.N()
+        sl = target.slice
+        parts = sl.elts if isinstance(sl, ast.Tuple) else [sl]
+        return ",".join(N.idx_key(p) for p in parts)
+
+    @staticmethod
+    def _distinct(k1: str, k2: str) -> bool:
+        """Two cell keys certainly denote different cells (both constant indices, different)."""
+        i1, i2 = k1.split("[", 1)[1][:-1], k2.split("[", 1)[1][:-1]
+        try:
+            return [int(x) for x in i1.split(",")] != [int(x) for x in i2.split(",")]
+        except ValueError:
+            return False
+
+
+def _assigned_names(stmts) -> set:
+    out = set()
+    for s in stmts:
+        for n in ast.walk(s):
+            if isinstance(n, ast.Name) and isinstance(n.ctx, ast.Store):
+                out.add(n.id)
+    return out
 
 
 def _load(node):
-    import copy
     n = copy.deepcopy(node)
     for x in ast.walk(n):
         if hasattr(x, "ctx"):
